@@ -52,6 +52,7 @@ type Config struct {
 	SolverName   string
 	TimeoutMs    int
 	Transcript   string
+	Logic        string
 	Known        []KnownFinding
 	Verbose      bool
 	UnwindFn     map[string]int
@@ -174,7 +175,7 @@ func (in *Interp) resetPath() {
 // RunHarness explores all paths of the harness function.
 func (in *Interp) RunHarness(fn *ssa.Function) error {
 	in.hname = fn.Name()
-	s, err := NewSolver(in.tb, in.cfg.SolverName, in.cfg.TimeoutMs, in.cfg.Transcript)
+	s, err := NewSolver(in.tb, in.cfg.SolverName, in.cfg.TimeoutMs, in.cfg.Transcript, in.cfg.Logic)
 	if err != nil {
 		return err
 	}
